@@ -510,13 +510,16 @@ impl<T: DecodedPacket> DecodedPacket for OptionalMulti<T> {
 
         let mut packets = vec![];
 
+        // Only consume the data when all the packets are complete.
+        let mut remaining = buf.clone();
         for hint in hints {
-            let packet = match T::decode(buf, hint)? {
+            let packet = match T::decode(&mut remaining, hint)? {
                 Some(p) => p,
                 None => return Ok(None),
             };
             packets.push(packet);
         }
+        *buf = remaining;
         Ok(Some(OptionalMulti::Multi(packets)))
     }
 }
